@@ -32,6 +32,21 @@ class Sub:
         return getattr(self._c, a)
 
 
+def final_cov_zero(r):
+    """Actions with zero count in the LAST coverage report of a -coverage run (a slow run also prints interim
+    reports, in which actions not reached yet have zero count)."""
+    import re
+    out = r.out
+    k = out.rfind('The coverage statistics at')
+    if k >= 0:
+        out = out[k:]
+    zeros = []
+    for m in re.finditer(r'^<(\w+) line \d+, col \d+ to line \d+, col \d+ of module (\w+)>: (\d+):(\d+)', out, re.M):
+        if int(m.group(4)) == 0 and int(m.group(3)) == 0:
+            zeros.append(m.group(2) + '!' + m.group(1))
+    return sorted(set(zeros))
+
+
 def selftest_one(ctx, tspec, trace, corruption, tries=60):
     """Binding self-test with one corruption: applied to the first sub-trace (seeded order) it fits; the trace
     spec must reject the result.  Returns [] when it fits none of the sub-traces tried."""
@@ -209,7 +224,7 @@ def phase_mc(ctx, thorough):
         r = ctx.tlc_expect_ok(['cpctrl'], 'MC_CPCtrl.tla', cfg, coverage=(cfg == 'MC_CPCtrl.cfg'), timeout=1200, workers=w)
         ctx.log('%s (%s): %d distinct states, depth %d' % (cfg, what, r.distinct, r.depth))
         if cfg == 'MC_CPCtrl.cfg':
-            zeros = [z for z in r.coverage_zero() if 'AcceptLaunch' not in z and 'SendMap' not in z and 'RecvWGDone' not in z
+            zeros = [z for z in final_cov_zero(r) if 'AcceptLaunch' not in z and 'SendMap' not in z and 'RecvWGDone' not in z
                      and 'LaunchRsp' not in z]
     if zeros:
         raise vlib.Infra('vacuity: actions never taken in MC_CPCtrl: %s' % zeros)
@@ -223,8 +238,8 @@ def phase_mc(ctx, thorough):
         for cfg in ('MC_CPCtrl_launch.cfg', 'MC_CPCtrl_big.cfg', 'MC_CPCtrl_acc.cfg'):
             r = ctx.tlc_expect_ok(['cpctrl'], 'MC_CPCtrl.tla', cfg, coverage=(cfg == 'MC_CPCtrl_launch.cfg'), timeout=3000, workers=w)
             ctx.log('%s: %d distinct states, depth %d' % (cfg, r.distinct, r.depth))
-            if cfg == 'MC_CPCtrl_launch.cfg' and r.coverage_zero():
-                raise vlib.Infra('vacuity: actions never taken in MC_CPCtrl_launch: %s' % r.coverage_zero())
+            if cfg == 'MC_CPCtrl_launch.cfg' and final_cov_zero(r):
+                raise vlib.Infra('vacuity: actions never taken in MC_CPCtrl_launch: %s' % final_cov_zero(r))
 
 
 def phase_scen(ctx, drv, thorough, res):
